@@ -142,6 +142,10 @@ def declare(spec):
     Pk = spec.klass('desper.logic.world.Processor', 'Proc',
                     fields={'world': World, 'priority': TInt,
                             '__events__': ClassLevel(T.events_of)})
+    # components and processors are user objects whose classes may define == by value
+    # (dataclass-like): `==`/`!=` between them in the analysed code is not identity
+    Ck.value_equality = True
+    Pk.value_equality = True
     Tk = spec.klass(None, 'Type')
     T.declare_class_of('Proc', 'desper.logic.world.Processor')
     T.declare_class_of('World', 'desper.logic.world.World')
@@ -446,6 +450,21 @@ def register_mutators(spec):
     C = spec.contract
     wfall = ["wf(self)"]
     P = dict(self=World)
+    # the relay of a postponed lifecycle callback: whatever happened to the handler in the
+    # meantime, exactly one call of the method its class maps to the event, with the arguments
+    # that were queued (the last hop of on_add-postponed-not-lost / on_remove-postponed-not-lost)
+    RELAYED = ("call_cb(class_attr(typeof(handler), ev_get(typeof(handler), event)), handler, args, "
+               "kw_empty())")
+    C(W + '_on_single_dispatch', params=dict(self=World, event=EV.Str, handler=EV.Handler, args=EV.ArgPack),
+      props=['C02'], open_effect=True, modifies=['ghost:log', 'ghost:cnt'],
+      requires=['wf(self)', 'event != None', 'handler != None',
+                'has_events(typeof(handler)) and ev_has(typeof(handler), event)'],
+      ensures={'relayed-exactly-once-to-the-handler': (
+          'cnt(%s) == old(cnt(%s)) + 1 and all(implies(c != %s, cnt(c) == old(cnt(c))) for c in Call)'
+          % (RELAYED, RELAYED, RELAYED))},
+      raises={'$OtherException': {'from-the-callback': (
+          'cnt(%s) == old(cnt(%s)) + 1 and all(implies(c != %s, cnt(c) == old(cnt(c))) for c in Call)'
+          % (RELAYED, RELAYED, RELAYED))}})
     MATCH = 'entity in old(self._entities) and U in old(self._entities)[entity]'
     found = 'any(desc(component_type, U) and %s for U in Type)' % MATCH
 
